@@ -11,6 +11,9 @@ EXTRA_CONFIGS = [
     dict(name='ext4-1k-metabg-flex', fstype='ext4', bs=1024, blocks=12289, features=['meta_bg', '^resize_inode'], extra=['-g', '512', '-G', '4', '-N', '768']),
     dict(name='ext3-1k-smallgroups', fstype='ext3', bs=1024, blocks=8193, features=[], extra=['-g', '768', '-N', '512']),
     dict(name='ext4-1k-fewinodes-3groups', fstype='ext4', bs=1024, blocks=24577, features=[], extra=['-N', '240']),      # 80 inodes per group: the population fills whole groups, shrinking renumbers inodes
+    # fewer groups than one meta group (32 at 1k blocks): growing creates the groups that hold the other descriptor copies of meta group 0
+    dict(name='ext4-1k-metabg-20smallgroups', fstype='ext4', bs=1024, blocks=20481, features=['meta_bg', '^resize_inode'], extra=['-g', '1024', '-N', '640']),
+    dict(name='ext2-1k-metabg-1group', fstype='ext2', bs=1024, blocks=1025, features=['meta_bg', '^resize_inode'], extra=['-g', '1024', '-N', '64']),
     dict(name='ext2-1k-fewinodes-4groups', fstype='ext2', bs=1024, blocks=32769, features=[], extra=['-N', '256']),
     dict(name='ext4-2k-bigalloc', fstype='ext4', bs=2048, blocks=16384, features=['bigalloc'], extra=['-C', '8192']),
 ]
@@ -29,7 +32,7 @@ RULE = ('Hypothesis draws (configuration out of %d incl. sparse_super2 with 0/1/
 req = st.tuples(st.sampled_from(['abs', 'abs', 'abs', 'M', 'b', 's', 'min+']), st.integers(0, 400), st.integers(-4, 40), st.sampled_from(['', '', '-f', '-p', '-f -p']))
 def strategy(env):
     # inode renumbering needs small inode tables spread over several groups: those configurations and the inode-filler population are drawn more often
-    weighted = CFG_NAMES + ['ext4-1k-manygroups', 'ext4-1k-fewinodes-3groups', 'ext2-1k-fewinodes-4groups'] * 4
+    weighted = CFG_NAMES + ['ext4-1k-manygroups', 'ext4-1k-fewinodes-3groups', 'ext2-1k-fewinodes-4groups'] * 4 + ['ext4-1k-metabg-20smallgroups'] * 3
     return st.fixed_dictionaries(dict(cfg=st.sampled_from(weighted), recipe=st.integers(0, len(hyp.RECIPES) - 1), extras=st.lists(st.tuples(st.sampled_from(list(range(fsgen.NKINDS)) + [7, 7, 7]), st.integers(0, 2000), st.integers(0, 6000)), max_size=3),
                                       reqs=st.lists(req, min_size=1, max_size=3), san=st.booleans(), fill=st.integers(0, 3)))
 
